@@ -135,3 +135,83 @@ package rapid
 //@   ensures [extension-lines-on-every-path] (lastret(ExtensionsEnabledCheck) ==> delta(AgentsInfoRead) == 1 && delta(EvExtensionInit) == len(lastret(AgentsInfoRead))) && (!lastret(ExtensionsEnabledCheck) ==> delta(EvExtensionInit) == 0)
 //@   ensures [not-done-on-failure] r0 != nil ==> execCtx.initDone == old(execCtx.initDone)
 //@   ensures [generation-bumped] execCtx.runtimeDomainGeneration == (old(execCtx.runtimeDomainGeneration) + 1) % 4294967296
+
+// ---------------------------------------------------------------------------------------------
+// C04 (+ invoke side of C15): the invoke orchestration
+// ---------------------------------------------------------------------------------------------
+//@ event EvInvokeStart = call interop.(EventsAPI).SendInvokeStart
+//@ event EvInvokeRuntimeDone = call interop.(EventsAPI).SendInvokeRuntimeDone
+//@ event EvInvokeRuntimeDoneSuccess = call interop.(EventsAPI).SendInvokeRuntimeDone when a1.Status == telemetry.RuntimeDoneSuccess
+//@ event InlineInit = call rapid.doRuntimeDomainInit
+//@ event InlineInitOK = ret rapid.doRuntimeDomainInit when r0 == nil
+//@ event InitBarriers = call core.(InvokeFlowSynchronization).InitializeBarriers
+//@ event InitBarriersOK = ret core.(InvokeFlowSynchronization).InitializeBarriers when r0 == nil
+//@ event SubscribedInt = ret core.(RegistrationService).GetSubscribedInternalAgents
+//@ event SubscribedExt = ret core.(RegistrationService).GetSubscribedExternalAgents
+//@ event SubscribedIntForInvoke = call core.(RegistrationService).GetSubscribedInternalAgents when a1 == core.InvokeEvent
+//@ event SubscribedExtForInvoke = call core.(RegistrationService).GetSubscribedExternalAgents when a1 == core.InvokeEvent
+//@ event SetInvokeAgentsCount = call core.(InvokeFlowSynchronization).SetAgentsReadyCount
+//@ event SetInvokeAgentsCountOK = ret core.(InvokeFlowSynchronization).SetAgentsReadyCount when r0 == nil
+//@ event RendererSet = call rapi/rendering.(*EventRenderingService).SetRenderer
+//@ event ReleaseExt = call core.(*ExternalAgent).Release
+//@ event ReleaseInt = call core.(*InternalAgent).Release
+//@ event ReleaseRuntime = call core.(*Runtime).Release
+//@ event AwaitResponse = call core.(InvokeFlowSynchronization).AwaitRuntimeResponse
+//@ event AwaitResponseOK = ret core.(InvokeFlowSynchronization).AwaitRuntimeResponse when r0 == nil
+//@ event AwaitInvokeRuntimeReady = call core.(InvokeFlowSynchronization).AwaitRuntimeReady
+//@ event AwaitInvokeRuntimeReadyOK = ret core.(InvokeFlowSynchronization).AwaitRuntimeReady when r0 == nil
+//@ event AwaitInvokeAgentsReady = call core.(InvokeFlowSynchronization).AwaitAgentsReady
+//@ event AwaitInvokeAgentsReadyOK = ret core.(InvokeFlowSynchronization).AwaitAgentsReady when r0 == nil
+//@ event ActiveExtensionsCheck = ret rapid.(*rapidContext).HasActiveExtensions
+
+//@ func sendInvokeStartLogEvent
+//@   requires execCtx != nil
+//@   ensures [one-invoke-start] delta(EvInvokeStart) == 1 && delta(EvInvokeRuntimeDone) == 0 && lastarg(EvInvokeStart, 1).RequestID == invokeRequestID
+
+// inline init: initialisation inside the first invocation
+//@ func doInvoke$1$1
+//@   requires execCtx != nil && sbInfoFromInit.EnvironmentVariables != nil
+//@   ensures [inline-init-once] delta(InlineInit) == 1 && delta(InlineInitOK) == ite(r0 == nil, 1, 0)
+//@   ensures [done-on-success] r0 == nil ==> execCtx.initDone
+//@   ensures [no-invoke-traffic] delta(EvInvokeStart) == 0 && delta(EvInvokeRuntimeDone) == 0 && delta(ReleaseRuntime) == 0 && delta(ReleaseExt) == 0 && delta(ReleaseInt) == 0 && delta(InitBarriers) == 0
+
+// the invoke subsegment: renderer first, then exactly the subscribers and the runtime are released, then the response is awaited
+//@ func doInvoke$1$2
+//@   requires execCtx != nil && invokeRequest != nil && mx != nil && isInvokeFlow(invokeFlow)
+//@   ensures [renderer-before-release] delta(RendererSet) == 1 && delta(ReleaseRuntime) == 1 && first(RendererSet) < first(ReleaseRuntime)
+//@   ensures [exactly-the-subscribers] delta(ReleaseExt) == ite(extEnabled(), len(extAgents), 0) && delta(ReleaseInt) == ite(extEnabled(), len(intAgents), 0)
+//@   ensures [agents-before-runtime] (delta(ReleaseExt) >= 1 ==> first(RendererSet) < first(ReleaseExt) && last(ReleaseExt) < first(ReleaseRuntime)) && (delta(ReleaseInt) >= 1 ==> first(RendererSet) < first(ReleaseInt) && last(ReleaseInt) < first(ReleaseRuntime))
+//@   ensures [response-awaited-after-release] delta(AwaitResponse) == 1 && first(ReleaseRuntime) < first(AwaitResponse) && delta(AwaitResponseOK) == ite(r0 == nil, 1, 0)
+//@   ensures [nothing-else] delta(EvInvokeStart) == 0 && delta(EvInvokeRuntimeDone) == 0 && delta(InitBarriers) == 0 && delta(SetInvokeAgentsCount) == 0 && delta(AwaitInvokeRuntimeReady) == 0 && delta(AwaitInvokeAgentsReady) == 0 && delta(InlineInit) == 0
+//@   loop range extAgents: invariant [each-subscriber-once] delta(ReleaseExt) == rangeindex + 1 && 0 <= rangeindex + 1 && rangeindex + 1 <= len(extAgents) && (rangeindex >= 0 ==> lastarg(ReleaseExt, 0) == extAgents[rangeindex]) && delta(ReleaseInt) == 0 && delta(ReleaseRuntime) == 0 && delta(RendererSet) == 1 && delta(AwaitResponse) == 0 && (rangeindex >= 0 ==> first(RendererSet) < first(ReleaseExt) && last(ReleaseExt) <= now())
+//@   loop range intAgents: invariant [each-subscriber-once] delta(ReleaseInt) == rangeindex + 1 && 0 <= rangeindex + 1 && rangeindex + 1 <= len(intAgents) && (rangeindex >= 0 ==> lastarg(ReleaseInt, 0) == intAgents[rangeindex]) && delta(ReleaseExt) == len(extAgents) && delta(ReleaseRuntime) == 0 && delta(RendererSet) == 1 && delta(AwaitResponse) == 0 && (rangeindex >= 0 ==> first(RendererSet) < first(ReleaseInt) && last(ReleaseInt) <= now()) && (delta(ReleaseExt) >= 1 ==> first(RendererSet) < first(ReleaseExt) && last(ReleaseExt) <= now())
+
+//@ func doInvoke$1$2$1
+//@   requires mx != nil && renderer != nil
+
+// the overhead subsegment: wait for the runtime to come back to next
+//@ func doInvoke$1$3
+//@   requires execCtx != nil && isInvokeFlow(invokeFlow)
+//@   ensures [runtime-ready-awaited] delta(AwaitInvokeRuntimeReady) == 1 && delta(AwaitInvokeRuntimeReadyOK) == ite(r0 == nil, 1, 0)
+//@   ensures [nothing-else] delta(EvInvokeStart) == 0 && delta(EvInvokeRuntimeDone) == 0 && delta(InitBarriers) == 0 && delta(SetInvokeAgentsCount) == 0 && delta(AwaitResponse) == 0 && delta(AwaitInvokeAgentsReady) == 0 && delta(ReleaseRuntime) == 0 && delta(ReleaseExt) == 0 && delta(ReleaseInt) == 0 && delta(InlineInit) == 0 && delta(RendererSet) == 0
+
+// the body of one invocation
+//@ func doInvoke$1
+//@   requires execCtx != nil && ctxWired(execCtx) && invokeRequest != nil && mx != nil && sbInfoFromInit.EnvironmentVariables != nil
+//@   ensures [one-invoke-start] delta(EvInvokeStart) == 1 && lastarg(EvInvokeStart, 1).RequestID == old(invokeRequest).ID
+//@   ensures [inline-init-only-when-needed] delta(InlineInit) == ite(old(execCtx.initDone), 0, 1) && (delta(InlineInit) == 1 && delta(InlineInitOK) == 0 ==> r0 != nil && delta(InitBarriers) == 0 && delta(ReleaseRuntime) == 0)
+//@   ensures [delivered-only-after-init] delta(ReleaseRuntime) >= 1 ==> execCtx.initDone && (delta(InlineInit) == 1 ==> delta(InlineInitOK) == 1 && last(InlineInitOK) < first(ReleaseRuntime))
+//@   ensures [barriers-armed-before-delivery] delta(InitBarriers) <= 1 && (delta(ReleaseRuntime) >= 1 ==> delta(InitBarriersOK) == 1 && last(InitBarriersOK) < first(ReleaseRuntime) && first(EvInvokeStart) < first(InitBarriers))
+//@   ensures [ready-count-is-number-of-invoke-subscribers] extEnabled() && delta(ReleaseRuntime) >= 1 ==> delta(SubscribedIntForInvoke) == 1 && delta(SubscribedExtForInvoke) == 1 && delta(SubscribedInt) == 1 && delta(SubscribedExt) == 1 && delta(SetInvokeAgentsCount) == 1 && delta(SetInvokeAgentsCountOK) == 1 && lastarg(SetInvokeAgentsCount, 1) == (len(lastret(SubscribedInt)) + len(lastret(SubscribedExt))) % 65536 && last(InitBarriersOK) < first(SetInvokeAgentsCount) && last(SetInvokeAgentsCountOK) < first(ReleaseRuntime)
+//@   ensures [released-exactly-the-invoke-subscribers] delta(ReleaseRuntime) <= 1 && (delta(ReleaseRuntime) == 1 ==> delta(ReleaseExt) == ite(extEnabled(), len(lastret(SubscribedExt)), 0) && delta(ReleaseInt) == ite(extEnabled(), len(lastret(SubscribedInt)), 0)) && (delta(ReleaseRuntime) == 0 ==> delta(ReleaseExt) == 0 && delta(ReleaseInt) == 0)
+//@   ensures [not-complete-before-everyone-is-back] r0 == nil ==> delta(ReleaseRuntime) == 1 && delta(AwaitResponseOK) == 1 && delta(AwaitInvokeRuntimeReadyOK) == 1 && first(ReleaseRuntime) < first(AwaitResponse) && last(AwaitResponseOK) < first(AwaitInvokeRuntimeReady) && (lastret(ActiveExtensionsCheck) ==> delta(AwaitInvokeAgentsReadyOK) == 1 && last(AwaitInvokeRuntimeReadyOK) < first(AwaitInvokeAgentsReady))
+//@   ensures [runtime-done-is-truthful] delta(EvInvokeRuntimeDone) <= 1 && delta(EvInvokeRuntimeDoneSuccess) == delta(EvInvokeRuntimeDone) && (delta(EvInvokeRuntimeDone) == 1 ==> first(EvInvokeStart) < first(EvInvokeRuntimeDone) && delta(AwaitResponseOK) == 1 && delta(AwaitInvokeRuntimeReadyOK) == 1 && last(AwaitInvokeRuntimeReadyOK) < first(EvInvokeRuntimeDone))
+
+//@ func doInvoke
+//@   requires execCtx != nil && invokeRequest != nil && mx != nil && sbInfoFromInit.EnvironmentVariables != nil
+//@   ensures [one-invoke-start] delta(EvInvokeStart) == 1 && lastarg(EvInvokeStart, 1).RequestID == old(invokeRequest.ID)
+//@   ensures [delivered-only-after-init] delta(ReleaseRuntime) >= 1 ==> execCtx.initDone
+//@   ensures [barriers-armed-before-delivery] delta(InitBarriers) <= 1 && (delta(ReleaseRuntime) >= 1 ==> delta(InitBarriersOK) == 1 && last(InitBarriersOK) < first(ReleaseRuntime))
+//@   ensures [released-exactly-the-invoke-subscribers] delta(ReleaseRuntime) <= 1 && (delta(ReleaseRuntime) == 1 ==> delta(ReleaseExt) == ite(extEnabled(), len(lastret(SubscribedExt)), 0) && delta(ReleaseInt) == ite(extEnabled(), len(lastret(SubscribedInt)), 0)) && (delta(ReleaseRuntime) == 0 ==> delta(ReleaseExt) == 0 && delta(ReleaseInt) == 0)
+//@   ensures [not-complete-before-everyone-is-back] r0 == nil ==> delta(ReleaseRuntime) == 1 && delta(AwaitResponseOK) == 1 && delta(AwaitInvokeRuntimeReadyOK) == 1 && (lastret(ActiveExtensionsCheck) ==> delta(AwaitInvokeAgentsReadyOK) == 1)
+//@   ensures [runtime-done-is-truthful] delta(EvInvokeRuntimeDone) <= 1 && delta(EvInvokeRuntimeDoneSuccess) == delta(EvInvokeRuntimeDone) && (delta(EvInvokeRuntimeDone) == 1 ==> first(EvInvokeStart) < first(EvInvokeRuntimeDone) && delta(AwaitResponseOK) == 1 && delta(AwaitInvokeRuntimeReadyOK) == 1)
